@@ -28,9 +28,16 @@ func (o Op) String() string {
 		return o.Kind
 	case "sched":
 		return fmt.Sprintf("sched(p%d,node#%d)", o.A, o.B)
+	case "schedcf":
+		return fmt.Sprintf("sched-provider-fails(p%d,node#%d)", o.A, o.B)
+	case "delivercf":
+		return fmt.Sprintf("deliver-provider-fails-once(%d)", o.A)
 	}
 	return fmt.Sprintf("%s(%d)", o.Kind, o.A)
 }
+
+// isSched: a scheduling attempt (Filter then Bind on an offered node), with or without a provider failure.
+func isSched(kind string) bool { return kind == "sched" || kind == "schedcf" }
 
 // Obs is what an operation returned (used by oracles).
 type Obs struct {
@@ -64,6 +71,8 @@ type HistSys struct {
 	// ModelCanon, when set, contributes the reference model's own state (history variables) to the canonical form, so
 	// that states the implementation cannot tell apart but the model can are not merged.
 	ModelCanon func(h *HistSys, w *world.World) string
+	// Step, when set, runs after every operation of a replay (prefix included): oracles with incremental scratch state.
+	Step func(w *world.World)
 }
 
 func (h *HistSys) pod(i int) world.PodSpec { return h.Class.pod(i) }
@@ -104,6 +113,10 @@ func (h *HistSys) Enabled(w *world.World) []Op {
 			if len(w.Cfg.Nodes) > 2 {
 				ops = append(ops, Op{Kind: "sched", A: i, B: 1})
 			}
+			if h.Ops["cloudfail"] && w.Cloud != nil {
+				// one scheduling attempt during which the next provider call fails cleanly (kube-scheduler retries later)
+				ops = append(ops, Op{Kind: "schedcf", A: i, B: 0})
+			}
 		}
 		if h.Ops["delete"] {
 			ops = append(ops, Op{Kind: "delete", A: i})
@@ -119,6 +132,10 @@ func (h *HistSys) Enabled(w *world.World) []Op {
 		if h.Ops["deliver"] {
 			ops = append(ops, Op{Kind: "deliver", A: j})
 		}
+	}
+	if len(w.Pending) > 0 && h.Ops["deliver"] && h.Ops["cloudfail"] && w.Cloud != nil {
+		// the event is handled while the next provider call fails once (the release loop retries the unbind)
+		ops = append(ops, Op{Kind: "delivercf", A: 0})
 	}
 	if len(w.Pending) > 0 && h.Ops["drop"] {
 		ops = append(ops, Op{Kind: "drop", A: 0})
@@ -158,7 +175,11 @@ func (h *HistSys) Apply(w *world.World, op Op) Obs {
 	switch op.Kind {
 	case "create":
 		w.CreatePod(h.pod(op.A))
-	case "sched":
+	case "sched", "schedcf":
+		if op.Kind == "schedcf" {
+			w.Cloud.FailNext()
+			defer func() { w.Cloud.FailAt = 0 }()
+		}
 		key := h.pod(op.A).Key()
 		o.Before = w.MemDump()
 		pod := w.Pods[key]
@@ -196,7 +217,11 @@ func (h *HistSys) Apply(w *world.World, op Op) Obs {
 			o.EventPod, o.EventUID = h.pod(op.A).Key(), string(p.UID)
 		}
 		w.SetPhase(h.pod(op.A).Key(), corev1.PodSucceeded)
-	case "deliver":
+	case "deliver", "delivercf":
+		if op.Kind == "delivercf" {
+			w.Cloud.FailNext()
+			defer func() { w.Cloud.FailAt = 0 }()
+		}
 		if op.A < len(w.Pending) && w.Pending[op.A].Pod != nil {
 			o.EventPod = w.Pending[op.A].Pod.Namespace + "/" + w.Pending[op.A].Pod.Name
 			o.EventUID = string(w.Pending[op.A].Pod.UID)
@@ -362,14 +387,23 @@ func BuildHist(h *HistSys, hist []Op) (*world.World, Obs, error) {
 	}
 	h.Init(w)
 	w.Aux = nil
+	if h.Step != nil {
+		h.Step(w)
+	}
 	for _, op := range h.Prefix {
 		// the observations of the prefix belong to the log: reference models need what was handed out there
 		w.Aux = append(w.Aux, h.Apply(w, op))
+		if h.Step != nil {
+			h.Step(w)
+		}
 	}
 	var last Obs
-	for _, op := range hist {
+	for i, op := range hist {
 		last = h.Apply(w, op)
 		w.Aux = append(w.Aux, last)
+		if h.Step != nil && i < len(hist)-1 {
+			h.Step(w) // the last state is the oracle's
+		}
 	}
 	return w, last, nil
 }
